@@ -61,11 +61,18 @@ theorem C02_flushability_wakes_dispatch (s : St) (h : dispatchAlive s) (hw : s.t
   apply liftT_woken s _ h
   simp only [SimT.setFlush, SimT.wakeIfReady, hw, hc, Bool.and_self, Bool.or_true, ↓reduceIte]
 
-/-- **A flush completing wakes the task parked on readiness**: the transport wakes the registered
-waker whenever readiness is restored, also when the owner's own flush restored it. -/
+/-- **A flush completing wakes the task parked on readiness**: a self-waking transport (`selfWake`, the default)
+wakes the registered waker whenever readiness is restored, also when the owner's own flush restored it.  (A staging
+sink, `selfWake = false`, does not: see `C02_ensureWriteable_repolls` for why the dispatch does not depend on it.) -/
 theorem C02_flush_restores_and_wakes (t : SimT) (hw : t.writeWaker = true) (hcap : 0 < t.cap)
-    (hc : t.coupled = true ∨ t.readyOpen = true) : t.drain.2 = true := by
-  rcases hc with hc | hc <;> simp [SimT.drain, SimT.isReadyNow, hw, hc, hcap]
+    (hc : t.coupled = true ∨ t.readyOpen = true) (hsw : t.selfWake = true) : t.drain.2 = true := by
+  rcases hc with hc | hc <;> simp [SimT.drain, SimT.isReadyNow, hw, hc, hcap, hsw]
+
+/-- … and without `selfWake` the owner's own flush leaves the waker registered (an external `setReady` / `setFlush`
+still finds it), reporting no wake. -/
+theorem C02_flush_without_self_wake (t : SimT) (hsw : t.selfWake = false) :
+    t.drain.2 = false ∧ t.drain.1.writeWaker = t.writeWaker := by
+  simp [SimT.drain, hsw]
 
 /-- … and that wake reaches the dispatch: `tFlush` turns the transport's report into a wake. -/
 theorem C02_own_flush_wakes_dispatch (s : St) (h : dispatchAlive s) (hw : s.t.pollFlush.2.2 = true) :
@@ -75,6 +82,22 @@ theorem C02_own_flush_wakes_dispatch (s : St) (h : dispatchAlive s) (hw : s.t.po
   apply wakeDispatch_woken
   · simp only [emit, emitViolations_dDropped]; exact h.1
   · simp only [emit, emitViolations_done]; exact h.2
+
+/-- **The dispatch does not rely on being woken by its own flush** (what a non-self-waking sink needs): in
+`ensure_writeable`, when `poll_ready` was `Pending` and the `poll_flush` that followed returned `Ready(Ok)`, the
+result is that of a *second* `poll_ready` in the same poll — not `Pending` unconditionally.  So room made by the
+dispatch's own flush is noticed at once, without any wake. -/
+theorem C02_ensureWriteable_repolls (s s1 s2 : St) (hel : s.ensureLoop = false)
+    (h1 : tReady s = (s1, .pending)) (h2 : tFlush s1 = (s2, .ready)) :
+    ensureWriteable s = ((tReady s2).1,
+      match (tReady s2).2 with
+      | .ready => .ready
+      | .err => .err .ready
+      | .pending => .pending) := by
+  unfold ensureWriteable ensureOnce
+  simp only [hel, Bool.false_eq_true, ↓reduceIte, h1, h2]
+  cases h3 : (tReady s2).2 <;> rcases h4 : tReady s2 with ⟨s3, r3⟩ <;> rw [h4] at h3 <;> simp only at h3 <;>
+    subst h3 <;> rfl
 
 /-- **A reply (or any completion) wakes the caller**: sending on a call's oneshot while the caller is
 parked on it (`rxWaker`) wakes that call, and the value is there for it to read. -/
@@ -232,6 +255,7 @@ theorem C02_dispatch_registers_on_request_queue (s : St) (h : (pqRecv s).2 = .pe
 theorem C02_dispatch_registers_on_read (t : SimT) (h : t.pollNext.2 = .pending) :
     t.pollNext.1.readWaker = true := by
   unfold SimT.pollNext at h ⊢
+  simp only at h ⊢
   split
   · simp_all
   · split
@@ -402,5 +426,22 @@ example :
     c0.s.inflight.map (·.cid) = [0] ∧
     (getCall (dropDispatch c0.s) 0).map (·.woken) = some true := by
   decide
+
+/-- a staging sink (no self-wake) with room for one message; two calls; one poll of the dispatch -/
+def c02StagingOps : List COp :=
+  [.selfWake false, .call 0 1000000000 ⟨1, .given 1, true⟩ 1, .call 0 1000000000 ⟨2, .given 2, true⟩ 2,
+   .pollCall 0, .pollCall 1, .pollDispatch]
+
+set_option maxRecDepth 100000 in
+/-- **Witness for `C02_ensureWriteable_repolls`.**  On a coupled transport of capacity 1 that does not wake its
+owner on the owner's own flush, a single dispatch poll writes *both* requests: after the first write the sink is
+full, `poll_ready` is `Pending`, the flush makes room, and the second `poll_ready` in the same poll sees it.  (A
+dispatch that returned `Pending` right after the flush would leave the second request queued with nobody to wake
+it.)  `settle` then finds no stuck call. -/
+theorem C02_staging_sink_witness :
+    (c02StagingOps.foldl applyOp (initSys 2 2 1 true)).s.t.selfWake = false ∧
+    (c02StagingOps.foldl applyOp (initSys 2 2 1 true)).s.t.sentLog.length = 2 ∧
+    (c02StagingOps.foldl applyOp (initSys 2 2 1 true)).s.pq = [] ∧
+    (settle (c02StagingOps.foldl applyOp (initSys 2 2 1 true))).2 = [] := by decide
 
 end TarpcModel.Client
